@@ -184,24 +184,19 @@ def main(tier, seed, replay=None):
     rep.mark('generated')
     res = impl.pmap(_lex, texts, chunk=2000)
     rep.mark('lexed')
-    tf = os.path.join(tmp_dir('c06'), 'trace.ndjson')
     kept = []
-    with open(tf, 'w') as f:
-        for i, (text, toks) in enumerate(zip(texts, res)):
-            if toks is None or isinstance(toks, tuple):
-                continue
-            f.write(json.dumps({
-                'id': i, 'cls': [code(c) for c in text],
-                'toks': [t[:7] for t in toks]}) + '\n')
-            kept.append(i)
-    cfg = 'SPECIFICATION Spec\nINVARIANT Verdict\n'
-    tr = run_tlc('LexTrace', cfg='LexTrace.cfg', cfg_text=cfg,
-                 modules={'Dummy_': '---- MODULE Dummy_ ----\n====\n'},
-                 workers=12, env={'TRACE_FILE': tf}, heap='8g')
-    rep.add_tlc(tr)
+    trecs = []
+    for i, (text, toks) in enumerate(zip(texts, res)):
+        if toks is None or isinstance(toks, tuple):
+            continue
+        trecs.append({'id': i, 'cls': [code(c) for c in text],
+                      'toks': [t[:7] for t in toks]})
+        kept.append(i)
+    from common import validate_trace
+    tlines = validate_trace('LexTrace', trecs, 'c06', rep, chunk=8000)
     rep.mark('validated')
     verdicts = {}
-    for line in tr.lines:
+    for line in tlines:
         i, why, k, off = json.loads(line)
         verdicts[i] = (why, k, off)
     if len(verdicts) != len(kept):
